@@ -130,7 +130,7 @@ Print Assumptions map_selection.
    None and every cell is a finite number whose CONDUCTIVITY (property_x/y/z:
    backward of the value; mu_r, epsilon_r: the value itself) is positive. *)
 Theorem validation_spec (m : mapid) attr (p : pname) (values : list (xval R)) :
-  check_pf Rpos0 Risz backward 0 m attr p values = None <->
+  check_pf Rpos0 Risz backward no_ovf 0 m attr p values = None <->
   attr <> Some None /\
   List.Forall (fun v => exists x, xreal v = Some x /\ 0 < checked_value m p x) values.
 Proof. exact (check_pf_R m attr p values). Qed.
@@ -139,55 +139,55 @@ Print Assumptions validation_spec.
 (* the same for any number type with decidable sign / zero test (this is the
    statement the executable Q instance of the correspondence falls under) *)
 Theorem validation_spec_generic {F : Type} (pos0 isz : F -> bool) (bwF : mapid -> F -> F)
-        (zero : F) (Hz : pos0 zero = false) m attr p values :
-  check_pf pos0 isz bwF zero m attr p values = None <->
-  attr <> Some None /\ List.Forall (accepts pos0 isz bwF zero m p) values.
-Proof. exact (check_pf_accepts pos0 isz bwF zero Hz m attr p values). Qed.
+        (ovf : mapid -> F -> option (xval F)) (zero : F) (Hz : pos0 zero = false) m attr p values :
+  check_pf pos0 isz bwF ovf zero m attr p values = None <->
+  attr <> Some None /\ List.Forall (accepts pos0 isz bwF ovf zero m p) values.
+Proof. exact (check_pf_accepts pos0 isz bwF ovf zero Hz m attr p values). Qed.
 Print Assumptions validation_spec_generic.
 
 (* the executable instance replaces backward of the four log/exp maps by the
    constant 1: acceptance only depends on the sign, which is positive *)
 Theorem validation_exec_instance_sound m attr p values :
-  check_pf Rpos0 Risz backward 0 m attr p values
+  check_pf Rpos0 Risz backward no_ovf 0 m attr p values
   = check_pf Rpos0 Risz
       (fun m x => match m with
                   | MConductivity => backward MConductivity x
                   | MResistivity => backward MResistivity x
-                  | _ => 1 end) 0 m attr p values.
+                  | _ => 1 end) no_ovf 0 m attr p values.
 Proof. exact (check_pf_exec_sign m attr p values). Qed.
 Print Assumptions validation_exec_instance_sound.
 
 (* construction: a model exists iff the map name is known and every given
    property passes the check above (model_valid) *)
 Theorem construction_spec mapping x y z mu eps (md : model (F:=R)) :
-  model_init Rpos0 Risz backward 0 mapping x y z mu eps = inl md <->
+  model_init Rpos0 Risz backward no_ovf 0 mapping x y z mu eps = inl md <->
   exists m, map_of_name mapping = Some m /\ md = mkModel m x y z mu eps /\
-            model_valid Rpos0 Risz backward 0 md.
-Proof. exact (model_init_spec Rpos0 Risz backward 0 Rpos0_zero mapping x y z mu eps md). Qed.
+            model_valid Rpos0 Risz backward no_ovf 0 md.
+Proof. exact (model_init_spec Rpos0 Risz backward no_ovf 0 Rpos0_zero mapping x y z mu eps md). Qed.
 Print Assumptions construction_spec.
 
 (* assignment: succeeds iff the property was initiated and the new values pass *)
 Theorem assignment_spec (md : model (F:=R)) p vs md' :
-  model_set Rpos0 Risz backward 0 md p vs = inl md' <->
+  model_set Rpos0 Risz backward no_ovf 0 md p vs = inl md' <->
   get_prop md p <> None /\
-  List.Forall (accepts Rpos0 Risz backward 0 (m_map md) p) vs /\
+  List.Forall (accepts Rpos0 Risz backward no_ovf 0 (m_map md) p) vs /\
   md' = set_prop md p (Some vs).
-Proof. exact (model_set_spec Rpos0 Risz backward 0 Rpos0_zero md p vs md'). Qed.
+Proof. exact (model_set_spec Rpos0 Risz backward no_ovf 0 Rpos0_zero md p vs md'). Qed.
 Print Assumptions assignment_spec.
 
 Theorem none_property_cannot_be_set (md : model (F:=R)) p vs :
-  get_prop md p = None -> model_set Rpos0 Risz backward 0 md p vs = inr ErrNone.
-Proof. exact (none_cannot_be_set Rpos0 Risz backward 0 md p vs). Qed.
+  get_prop md p = None -> model_set Rpos0 Risz backward no_ovf 0 md p vs = inr ErrNone.
+Proof. exact (none_cannot_be_set Rpos0 Risz backward no_ovf 0 md p vs). Qed.
 Print Assumptions none_property_cannot_be_set.
 
 (* every model reachable by construction and any sequence of successful
    assignments holds only positive finite conductivities / mu_r / epsilon_r,
    and keeps its anisotropy case and map *)
 Theorem assignment_preserves_validity (md : model (F:=R)) p vs md' :
-  model_valid Rpos0 Risz backward 0 md ->
-  model_set Rpos0 Risz backward 0 md p vs = inl md' ->
-  model_valid Rpos0 Risz backward 0 md' /\ case_of md' = case_of md /\ m_map md' = m_map md.
-Proof. exact (model_set_preserves Rpos0 Risz backward 0 Rpos0_zero md p vs md'). Qed.
+  model_valid Rpos0 Risz backward no_ovf 0 md ->
+  model_set Rpos0 Risz backward no_ovf 0 md p vs = inl md' ->
+  model_valid Rpos0 Risz backward no_ovf 0 md' /\ case_of md' = case_of md /\ m_map md' = m_map md.
+Proof. exact (model_set_preserves Rpos0 Risz backward no_ovf 0 Rpos0_zero md p vs md'). Qed.
 Print Assumptions assignment_preserves_validity.
 
 (* non-vacuity, on the executable instance *)
@@ -198,6 +198,11 @@ Example validation_examples :
   check_pf_Q MLgConductivity None PX [Fin (-3#1); NInf]%Q = Some ErrPositive /\
   check_pf_Q MLgConductivity None PX [Fin (-3#1); Fin 0]%Q = None /\
   check_pf_Q MConductivity None PMu [Fin (-3#1)]%Q = Some ErrPositive /\
-  check_pf_Q MConductivity (Some None) PY [Fin (3#1)]%Q = Some ErrNone.
+  check_pf_Q MConductivity (Some None) PY [Fin (3#1)]%Q = Some ErrNone /\
+  (* float range: 10**400 = inf, 10**-400 = 0.0, exp(-800) = 0.0, 10**300 is fine *)
+  check_pf_Q MLgConductivity None PX [Fin (400#1)]%Q = Some ErrFinite /\
+  check_pf_Q MLgConductivity None PX [Fin (-400#1)]%Q = Some ErrPositive /\
+  check_pf_Q MLnResistivity None PZ [Fin (800#1)]%Q = Some ErrPositive /\
+  check_pf_Q MLgResistivity None PY [Fin (300#1)]%Q = None.
 Proof. exact validation_examples_Q. Qed.
 Print Assumptions validation_examples.
